@@ -510,5 +510,102 @@ pub open spec fn spec_compute_pok<C: Ciphersuite>(id: Identifier<C>, coeffs: Seq
     }
 }
 
+
+// part1 (FROST KeyGen round 1): layout of the randomness  [key (rejection sampled)] [t-1 coefficients] [PoK nonce]
+pub open spec fn spec_part1<C: Ciphersuite>(res: Result<(crate::keys::dkg::round1::SecretPackage<C>, crate::keys::dkg::round1::Package<C>), Error<C>>,
+        id: Identifier<C>, max_signers: u16, min_signers: u16, stream: spec_fn(nat) -> u8, pos: nat) -> bool {
+    let key = spec_rnz_val::<C>(stream, pos);
+    let p1 = spec_rnz_end::<C>(stream, pos);
+    let a = seq![key] + spec_draws::<C>(stream, p1, (min_signers - 1) as nat);
+    let p2 = spec_draws_end::<C>(stream, p1, (min_signers - 1) as nat);
+    let k = C::spec_generate_nonce(stream, p2).0;
+    match spec_compute_pok::<C>(id, a, spec_commitment::<C>(a), k) {
+        Err(e) => res is Err && res->Err_0 == e,
+        Ok(sig) => res is Ok
+            && (res->Ok_0).0.identifier == id && (res->Ok_0).0.coefficients@ == a.map_values(|s: Scalar<C>| crate::serialization::SerializableScalar::<C>(s))
+            && (res->Ok_0).0.commitment.0@ == spec_commitment::<C>(a) && (res->Ok_0).0.min_signers == min_signers && (res->Ok_0).0.max_signers == max_signers
+            && (res->Ok_0).1.header == default_header::<C>() && (res->Ok_0).1.commitment.0@ == spec_commitment::<C>(a) && (res->Ok_0).1.proof_of_knowledge == sig,
+    }
+}
+
+
+// ---- part2 (FROST KeyGen round 1 step 5 + round 2 step 1) ----
+pub open spec fn sp_coeffs<C: Ciphersuite>(sp: crate::keys::dkg::round1::SecretPackage<C>) -> Seq<Scalar<C>> { sp.coefficients@.map_values(|s: crate::serialization::SerializableScalar<C>| s.0) }
+
+// first failing proof of knowledge among the senders ids[from..], in the given (ascending) order
+pub open spec fn spec_first_pok_err<C: Ciphersuite>(ids: Seq<Identifier<C>>, r1: Map<Identifier<C>, crate::keys::dkg::round1::Package<C>>, from: int) -> Option<Error<C>>
+    decreases ids.len() - from
+{
+    if from < 0 || from >= ids.len() { None } else {
+        match spec_pok_check::<C>(ids[from], r1[ids[from]].commitment.0@, r1[ids[from]].proof_of_knowledge) {
+            Err(e) => Some(e),
+            Ok(_) => spec_first_pok_err::<C>(ids, r1, from + 1),
+        }
+    }
+}
+
+// the error part2 returns, guard by guard in source order (None = success)
+pub open spec fn spec_part2_err<C: Ciphersuite>(sp: crate::keys::dkg::round1::SecretPackage<C>, r1: Map<Identifier<C>, crate::keys::dkg::round1::Package<C>>) -> Option<Error<C>> {
+    if r1.dom().len() != sp.max_signers - 1 { Some(Error::IncorrectNumberOfPackages) }
+    else if r1.contains_key(sp.identifier) { Some(Error::UnknownIdentifier) }
+    else if exists|id: Identifier<C>| r1.contains_key(id) && ((#[trigger] r1[id]).commitment.0@.len() as u16) != sp.min_signers { Some(Error::IncorrectNumberOfCommitments) }
+    else { spec_first_pok_err::<C>(sorted_seq(r1.dom()), r1, 0) }
+}
+
+pub open spec fn spec_part2_acc<C: Ciphersuite>(r2: Map<Identifier<C>, crate::keys::dkg::round2::Package<C>>, keys: Seq<Identifier<C>>, coeffs: Seq<Scalar<C>>,
+        r1: Map<Identifier<C>, crate::keys::dkg::round1::Package<C>>, j: int) -> bool {
+    r2.dom() == keys.take(j).to_set()
+    && (forall|k: int| 0 <= k < j ==> r2[#[trigger] keys[k]] == (crate::keys::dkg::round2::Package::<C> { header: default_header::<C>(),
+            signing_share: crate::keys::SigningShare(crate::serialization::SerializableScalar(poly::<AL<C>>(coeffs, keys[k].0.0))) }))
+    && (forall|k: int| 0 <= k < j ==> spec_pok_check::<C>(#[trigger] keys[k], r1[keys[k]].commitment.0@, r1[keys[k]].proof_of_knowledge) is Ok)
+}
+
+pub open spec fn spec_part2_ok<C: Ciphersuite>(s2: crate::keys::dkg::round2::SecretPackage<C>, r2: Map<Identifier<C>, crate::keys::dkg::round2::Package<C>>,
+        sp: crate::keys::dkg::round1::SecretPackage<C>, r1: Map<Identifier<C>, crate::keys::dkg::round1::Package<C>>) -> bool {
+    s2.identifier == sp.identifier && s2.commitment == sp.commitment && s2.min_signers == sp.min_signers && s2.max_signers == sp.max_signers
+    && s2.secret_share.0 == poly::<AL<C>>(sp_coeffs::<C>(sp), sp.identifier.0.0)
+    && r2.dom() == r1.dom()
+    && forall|id: Identifier<C>| r1.contains_key(id) ==> #[trigger] r2[id] == (crate::keys::dkg::round2::Package::<C> { header: default_header::<C>(),
+            signing_share: crate::keys::SigningShare(crate::serialization::SerializableScalar(poly::<AL<C>>(sp_coeffs::<C>(sp), id.0.0))) })
+}
+
+pub proof fn lemma_first_pok_err_step<C: Ciphersuite>(ids: Seq<Identifier<C>>, r1: Map<Identifier<C>, crate::keys::dkg::round1::Package<C>>, j: int)
+    requires 0 <= j < ids.len(), forall|k: int| 0 <= k < j ==> spec_pok_check::<C>(#[trigger] ids[k], r1[ids[k]].commitment.0@, r1[ids[k]].proof_of_knowledge) is Ok
+    ensures spec_first_pok_err::<C>(ids, r1, 0) == spec_first_pok_err::<C>(ids, r1, j)
+    decreases j
+{ if j > 0 { lemma_first_pok_err_step::<C>(ids, r1, j - 1); } }
+
+pub proof fn lemma_first_pok_err_none<C: Ciphersuite>(ids: Seq<Identifier<C>>, r1: Map<Identifier<C>, crate::keys::dkg::round1::Package<C>>, j: int)
+    requires j == ids.len(), forall|k: int| 0 <= k < j ==> spec_pok_check::<C>(#[trigger] ids[k], r1[ids[k]].commitment.0@, r1[ids[k]].proof_of_knowledge) is Ok
+    ensures spec_first_pok_err::<C>(ids, r1, 0) is None
+{
+    assert(spec_first_pok_err::<C>(ids, r1, j) is None);
+    if j > 0 {
+        lemma_first_pok_err_step::<C>(ids, r1, j - 1);
+        assert(spec_first_pok_err::<C>(ids, r1, j - 1) == spec_first_pok_err::<C>(ids, r1, j));
+    }
+}
+
+pub proof fn lemma_part2_acc_step<C: Ciphersuite>(r2: Map<Identifier<C>, crate::keys::dkg::round2::Package<C>>, keys: Seq<Identifier<C>>, coeffs: Seq<Scalar<C>>,
+        r1: Map<Identifier<C>, crate::keys::dkg::round1::Package<C>>, j: int)
+    requires 0 <= j < keys.len(), keys.no_duplicates(), spec_part2_acc::<C>(r2, keys, coeffs, r1, j),
+        spec_pok_check::<C>(keys[j], r1[keys[j]].commitment.0@, r1[keys[j]].proof_of_knowledge) is Ok
+    ensures spec_part2_acc::<C>(r2.insert(keys[j], crate::keys::dkg::round2::Package::<C> { header: default_header::<C>(),
+            signing_share: crate::keys::SigningShare(crate::serialization::SerializableScalar(poly::<AL<C>>(coeffs, keys[j].0.0))) }), keys, coeffs, r1, j + 1)
+{
+    let r22 = r2.insert(keys[j], crate::keys::dkg::round2::Package::<C> { header: default_header::<C>(),
+            signing_share: crate::keys::SigningShare(crate::serialization::SerializableScalar(poly::<AL<C>>(coeffs, keys[j].0.0))) });
+    assert(keys.take(j + 1) =~= keys.take(j).push(keys[j]));
+    assert(r22.dom() =~= keys.take(j + 1).to_set()) by {
+        assert forall|x: Identifier<C>| r22.dom().contains(x) <==> keys.take(j + 1).to_set().contains(x) by {
+            if r2.dom().contains(x) { let w = choose|w: int| 0 <= w < keys.take(j).len() && keys.take(j)[w] == x; assert(keys.take(j + 1)[w] == x); }
+            if x == keys[j] { assert(keys.take(j + 1)[j] == x); }
+            if keys.take(j + 1).contains(x) { let w = choose|w: int| 0 <= w < j + 1 && #[trigger] keys.take(j + 1)[w] == x; if w < j { assert(keys.take(j)[w] == x); assert(keys.take(j).contains(x)); } }
+        }
+    }
+    assert forall|k: int| 0 <= k < j + 1 implies r22[#[trigger] keys[k]] == (crate::keys::dkg::round2::Package::<C> { header: default_header::<C>(),
+            signing_share: crate::keys::SigningShare(crate::serialization::SerializableScalar(poly::<AL<C>>(coeffs, keys[k].0.0))) }) by { if k < j { assert(keys[k] != keys[j]); } }
+}
+
 } // verus!
 }
